@@ -50,6 +50,9 @@ const DECLS = {
   nestedFn: { tpl: (c) => `function make() { const Inner = ${c}; return Inner; }\nmake();`, decl: 'Inner' },
   multi: { tpl: (c) => `const Before = 1, Cmp = ${c}, After = 2;`, decl: 'Cmp' },
   destructure: { tpl: (c) => `const [Cmp] = [${c}];`, decl: null },
+  // another component of the same module, before or after (what one call gets must not depend on the other)
+  afterOther: { tpl: (c) => `const Other = defineComponent((props: { z: number }, ctx: SetupContext<(e: 'oz') => void>) => () => null, { name: 'OtherOwn', props: uProps });\nconst Cmp = ${c};\n__out.comp = Cmp;`, decl: 'Cmp', pick: 'last', vueOnly: true },
+  beforeOther: { tpl: (c) => `const Cmp = ${c};\nconst Other = defineComponent((props: { z: number }) => () => null);\n__out.comp = Cmp;`, decl: 'Cmp', pick: 'first', vueOnly: true },
 };
 // provenance of the callee: pre(lude) + callee text + whether it is vue's defineComponent imported by name
 const PROV = {
@@ -119,7 +122,8 @@ function judge(c, resps) {
   if (res.load) return { viol: [{ clause: 'load', diff: 'exception', msg: res.load }], obs: 'load' };
   const envOff = mkEnv();
   const resOff = R.run(off.eval_js, envOff);
-  const call = res.calls.find((x) => x.who === 'vue'), callOff = resOff.calls.find((x) => x.who === 'vue');
+  const pickCall = (calls) => { const v = calls.filter((x) => x.who === 'vue'); return dk.pick === 'last' ? v[v.length - 1] : v[0]; };
+  const call = pickCall(res.calls), callOff = pickCall(resOff.calls);
   if (!call || !callOff) return { viol: [{ clause: 'call', diff: 'not-called', msg: 'defineComponent was not called' }], obs: 'nocall' };
   const ctx = { names: env.names, flags: false }, ctxOff = { names: envOff.names, flags: false };
   const eff = effective(call.args), effUser = effective(callOff.args); // with resolveType off the call receives exactly what the user wrote
@@ -153,6 +157,7 @@ function* cases(tier) {
   for (const prov of Object.keys(PROV)) for (const shape of Object.keys(SHAPES)) for (const decl of Object.keys(DECLS)) for (const plain of [false, true]) {
     if (plain && tier !== 'thorough' && !(prov === 'vue')) continue;
     if (PROV[prov].wrap && ['exportConst', 'exportDefault'].includes(decl)) continue; // exports cannot be nested
+    if (DECLS[decl].vueOnly && PROV[prov].vue !== true) continue; // the companion call uses the same callee
     yield { prov, shape, decl, plain };
   }
 }
